@@ -468,11 +468,20 @@ pub fn run_case(id: usize, input: &Value) {
     let ctx: String = input.get("ctx").and_then(|c| c.as_str()).unwrap_or("").to_string();
     let b2 = bytes.clone();
     let c2 = ctx.clone();
-    let o = match catch(move || observe(b2, c2)) {
-        Ok(o) => o,
-        Err(msg) => {
+    // "tokenisation terminates" is part of the property: the tokenizer runs in a watched thread; a call that does not
+    // return within 10 s is reported with its input and the harness stops (the thread cannot be killed)
+    let (tx, rx) = std::sync::mpsc::channel();
+    std::thread::spawn(move || { let _ = tx.send(catch(move || observe(b2, c2))); });
+    let o = match rx.recv_timeout(std::time::Duration::from_secs(10)) {
+        Ok(Ok(o)) => o,
+        Ok(Err(msg)) => {
             emit(id, "", input.clone(), &["panic".to_string()], false, json!({"panic": msg}));
             return;
+        }
+        Err(_) => {
+            emit(id, "", input.clone(), &["panic".to_string(), "timeout".to_string()], false, json!({"panic": "TIMEOUT: the tokenizer did not return within 10 s on this input (non-termination)"}));
+            use std::io::Write; let _ = std::io::stdout().flush();
+            std::process::exit(3);
         }
     };
     let mut table: BTreeMap<Vec<u8>, Vec<u8>> = BTreeMap::new();
